@@ -947,6 +947,13 @@ impl<Octs: Octets> UpdateMessage<Octs> {
                 match pa.type_code() {
                     14 => {
                         // MP_REACH_NLRI
+                        // AFI, SAFI, next hop length and the reserved
+                        // octet are always present (RFC 4760, section 3).
+                        if pa.length() < 5 {
+                            return Err(ParseError::form_error(
+                                "length for MP_REACH_NLRI less than minimum"
+                            ))
+                        }
                         let mut tmp_parser = pa.value_into_parser();
                         let afi = tmp_parser.parse_u16_be()?;
                         let safi = tmp_parser.parse_u8()?;
